@@ -698,7 +698,10 @@ def describe_assignment_target(
                 # No known way to get here -- POP_TOP as sole insn is
                 # handled at the top of this function
                 stack.pop()
-            elif insn.opname in ("PRECALL", "CACHE"):
+            elif insn.opname in ("PRECALL", "CACHE", "PUSH_NULL"):
+                # PUSH_NULL (3.11+) precedes the load of a callable that isn't
+                # loaded by LOAD_GLOBAL/LOAD_ATTR, such as a local variable or
+                # a name at module or class scope
                 pass
             else:
                 raise ValueError(f"{insn.opname} in assignment target not supported")
